@@ -62,6 +62,17 @@ add("C09", "proof",
     "contract-based deductive verification of product-program lemma functions; determinism (purity) of key generation by go/ssa effects analysis",
     "DESIGN.md section 4 C09")
 
+add("C01", "other",
+    "Deductive obligations (all inputs) on the real signing and verification paths: memory safety for every length, signature layout (length 2180+32h, index field = consumed index), index automaton, frames; plus a bounded, exhaustive-over-indices evaluation of the BDS traversal invariant on the REAL traversal code with node labels (every index of every even height 4..20 in the quick tier, ..24 thorough, ..30 with VERIF_FULL=1; only hashH/genLeafWOTS bodies are spliced mechanically on each run) and, with the real hashes, sign->verify at every index of height 4 (6 thorough) for all three hash functions.",
+    "Level 'other' = deductive parts + bounded stand-in. The traversal invariant is NOT proved for symbolic height; the functional WOTS/L-tree/Merkle-fold contracts (DESIGN.md C01 links 2-5) are not yet discharged. Evidence lists the bounded runs under 'bounded', outside obligations/discharged.",
+    "contract-based deductive verification of the real code for safety/layout/index clauses; bounded run-time evaluation of the stated traversal contract where no inductive proof is attempted",
+    "DESIGN.md section 4 C01")
+add("C08", "other",
+    "Deductive: purity (`pure` + `reads addr[0:3]` clauses discharged by the go/ssa effects back end) and frames of the traversal step functions, identity of a jump to the current index (lemma function), identical evolution of the index on both paths. Bounded stand-in for the step-equivalence lemma: with the real hashes the complete traversal state and the next signature at every index of height 4 (4,6 thorough), all three hash functions, agree between signing, one jump and two jumps.",
+    "The product-program lemma 'one Sign step == one fast-forward step' is written (xmss/zz_lemmas_verif.go) but undecided by the solvers and therefore not claimed; path independence itself rests on the bounded differential run.",
+    "contract-based verification of purity/frame clauses (go/ssa) and a lemma function (SMT); bounded differential run of the real code as labelled stand-in",
+    "DESIGN.md section 4 C08")
+
 reasons = {}
 for p in ALL:
     if p not in checks:
